@@ -486,6 +486,47 @@ pub fn run(cx: &mut Ctx) {
             cx.cover("small_order_R", en);
         }
     }
+    // ------------------------------------------------ public keys that are not curve points
+    // About half of all 32-byte strings do not decompress. Under such a key nothing verifies in libsodium; a verifier that
+    // substitutes a default point for the undecodable key checks [S]B == R only, which the key-independent pair
+    // (R, S) = ([s]B, s) satisfies for every message.
+    {
+        use curve25519_dalek::constants::ED25519_BASEPOINT_POINT as B;
+        use curve25519_dalek::edwards::CompressedEdwardsY;
+        use curve25519_dalek::scalar::Scalar;
+        let noff = cx.tier.pick(2usize, 24, 400);
+        for i in 0..noff {
+            idx += 1;
+            if !cx.mine(idx) {
+                continue;
+            }
+            let mut rng = cx.rng.fork(idx);
+            let seed: [u8; 32] = rng.arr();
+            let (npk, nsk) = na::sign_seed_keypair(&seed);
+            // an honest key with a few bits changed, or a random string, until it is off the curve
+            let mut bad_pk = if i % 2 == 0 { npk } else { rng.arr::<32>() };
+            let mut tries = 0;
+            while CompressedEdwardsY(bad_pk).decompress().is_some() && tries < 64 {
+                bad_pk[rng.below(31)] ^= 1 << rng.below(8);
+                tries += 1;
+            }
+            if CompressedEdwardsY(bad_pk).decompress().is_some() {
+                continue;
+            }
+            cx.key(&format!("offcurve {}", i));
+            let sc = Scalar::from_bytes_mod_order_wide(&rng.arr::<64>());
+            let mut keyless = [0u8; 64];
+            keyless[..32].copy_from_slice(&(sc * B).compress().to_bytes());
+            keyless[32..].copy_from_slice(sc.as_bytes());
+            let m = rng.bytes(i % 40);
+            for ph in [false, true] {
+                decide(cx, if ph { "public_key_not_on_curve(keyless R=[s]B,S=s)|prehashed" } else { "public_key_not_on_curve(keyless R=[s]B,S=s)" }, ph, &keyless, &m, &bad_pk, true);
+            }
+            let honest = na::sign_detached(&m, &nsk);
+            decide(cx, "public_key_not_on_curve(honest signature of the unmutated key)", false, &honest, &m, &bad_pk, true);
+            cx.cover("offcurve_public_key", if i % 2 == 0 { "mutated_honest_key" } else { "random_string" });
+        }
+    }
     // ------------------------------------------------ mixed-order public keys A + T (T of order 2, 4 or 8)
     // With an honest secret scalar a, R = rB and S = r + k*a, the cofactorless equation holds for the key A + T exactly
     // when k*T is the identity. libsodium (which only refuses *small-order* keys) then accepts; a verifier that
